@@ -127,7 +127,7 @@ Definition Rsip (stc : sipstate * Z * Z) (vp : sipstate * list N) (n : Z) : Prop
   fst (fst stc) = fst vp /\ snd (fst stc) = le_value (snd vp) /\ snd stc = n mod 256 /\
   Z.of_nat (length (snd vp)) = n mod 8 /\ bytes_ok (snd vp) /\ 0 <= n.
 
-Lemma step_refines stc vp n b :
+Lemma sip_step_refines stc vp n b :
   Rsip stc vp n -> (b < 256)%N -> Rsip (csiphasher_step stc b) (sip_feed vp b) (n + 1).
 Proof.
   destruct stc as [[s t] c]. destruct vp as [v p].
@@ -168,7 +168,7 @@ Proof.
     rewrite app_length. simpl length. lia.
 Qed.
 
-Lemma steps_refine data : forall stc vp n,
+Lemma sip_steps_refine data : forall stc vp n,
   Rsip stc vp n -> bytes_ok data ->
   Rsip (fold_left csiphasher_step data stc) (fold_left sip_feed data vp) (n + Z.of_nat (length data)).
 Proof.
@@ -177,7 +177,7 @@ Proof.
   - inversion Hok as [|x l Hb Hrest]; subst.
     cbn [fold_left length].
     replace (n + Z.of_nat (S (length data))) with (n + 1 + Z.of_nat (length data)) by lia.
-    apply IH; [apply step_refines; assumption | exact Hrest].
+    apply IH; [apply sip_step_refines; assumption | exact Hrest].
 Qed.
 
 (* ---- the object: Write(span) is the loop on (m_state, m_tmp, m_count) ---- *)
@@ -260,7 +260,7 @@ Proof.
 Qed.
 
 (* ================= Finalize ================= *)
-Lemma finalize_refines h v p (msg : list N) :
+Lemma sip_finalize_refines h v p (msg : list N) :
   Rsip (sh_unpack h) (v, p) (Z.of_nat (length msg)) ->
   csiphasher_finalize h =
   sip_finalize 4 (sip_compress 2 v (le_value (p ++ zeros (7 - length p) ++ [N.of_nat (length msg mod 256)]))).
@@ -288,7 +288,7 @@ Proof.
   lia.
 Qed.
 
-Lemma init_refines k0 k1 : Rsip (sh_unpack (csiphasher_init k0 k1)) (sip_init k0 k1, []) 0.
+Lemma sip_init_refines k0 k1 : Rsip (sh_unpack (csiphasher_init k0 k1)) (sip_init k0 k1, []) 0.
 Proof.
   unfold Rsip, sh_unpack, csiphasher_init. cbn [fst snd sh_state sh_tmp sh_count length le_value].
   rewrite sipstate_init_eq. repeat split; try reflexivity; try lia. constructor.
@@ -305,11 +305,11 @@ Theorem csiphasher_stream_eq_spec k0 k1 chunks :
   siphash24_spec k0 k1 (concat chunks).
 Proof.
   intros Hok.
-  pose proof (steps_refine (concat chunks) _ _ _ (init_refines k0 k1) Hok) as HR.
+  pose proof (sip_steps_refine (concat chunks) _ _ _ (sip_init_refines k0 k1) Hok) as HR.
   rewrite <- fold_write_bytes_unpack in HR. rewrite Z.add_0_l in HR.
   set (msg := concat chunks) in *.
   destruct (fold_left sip_feed msg (sip_init k0 k1, [])) as [v p] eqn:Efeed.
-  rewrite (finalize_refines _ v p msg HR).
+  rewrite (sip_finalize_refines _ v p msg HR).
   unfold siphash24_spec, siphash_spec, sip_words, sip_padded.
   rewrite words_feed, Efeed. reflexivity.
 Qed.
@@ -327,12 +327,12 @@ Qed.
 Definition sip_wf (h : csiphasher) : Prop := exists v p n, Rsip (sh_unpack h) (v, p) n.
 
 Lemma sip_wf_init k0 k1 : sip_wf (csiphasher_init k0 k1).
-Proof. exists (sip_init k0 k1), [], 0. apply init_refines. Qed.
+Proof. exists (sip_init k0 k1), [], 0. apply sip_init_refines. Qed.
 
 Lemma sip_wf_write_bytes h data : sip_wf h -> bytes_ok data -> sip_wf (csiphasher_write_bytes h data).
 Proof.
   intros (v & p & n & HR) Hok.
-  pose proof (steps_refine data _ _ _ HR Hok) as HR'.
+  pose proof (sip_steps_refine data _ _ _ HR Hok) as HR'.
   destruct (fold_left sip_feed data (v, p)) as [v' p'].
   exists v', p', (n + Z.of_nat (length data)). rewrite write_bytes_pack, unpack_pack. exact HR'.
 Qed.
@@ -357,7 +357,7 @@ Proof.
   { destruct HR as (_ & _ & Hc & Hp & _). unfold sh_unpack in *. cbn [fst snd] in *.
     destruct p; [reflexivity | simpl length in Hp; lia]. }
   subst p.
-  pose proof (steps_refine (le_bytes 8 data) _ _ _ HR (le_bytes_ok 8 data)) as HR'.
+  pose proof (sip_steps_refine (le_bytes 8 data) _ _ _ HR (le_bytes_ok 8 data)) as HR'.
   rewrite le_bytes_length in HR'.
   assert (Hfeed : fold_left sip_feed (le_bytes 8 data) (v, []) = (sip_compress 2 v data, [])).
   { pose proof (le_value_le_bytes 8 data) as Hv. change (2 ^ (8 * Z.of_nat 8)) with (2 ^ 64) in Hv.
